@@ -155,6 +155,16 @@ func mutants(base *ref.Program, limit int) []mutant {
 					cm.Expr = &ref.Expr{Op: "tern", Args: []*ref.Expr{call1("isNonnull", &ref.Expr{Op: "ref", Name: cm.Var}), cm.Expr, cm.Expr}}
 					return true
 				})
+			case "msg":
+				add("a let inside a msg, used later in the msg", func(p *ref.Program) bool {
+					_, b, _ := nthBlock(p, bi)
+					cm := &(*b)[ci]
+					if len(cm.Body) > 0 && cm.Body[0].K == "plural" {
+						return false
+					}
+					cm.Body = append([]ref.Cmd{{K: "let", Var: "zzInMsg", Expr: &ref.Expr{Op: "str", S: "w"}}, {K: "text", Text: "Hi "}}, append(cm.Body, ref.Cmd{K: "print", Expr: &ref.Expr{Op: "ref", Name: "zzInMsg"}})...)
+					return true
+				})
 			case "call":
 				add("call passes an undeclared param", func(p *ref.Program) bool {
 					_, b, _ := nthBlock(p, bi)
